@@ -369,10 +369,24 @@ func scanTokens(data []byte, filename string, start hcl.Pos, mode scanMode) []To
         f.emitToken(TokenType(b[0]), ts, te)
     }
 
+rescan:
     %%{
         write init nocs;
         write exec;
     }%%
+
+    // The bareTemplate scanner has no rule for a carriage return that is
+    // not part of a CRLF line ending, so it stops there. At the top level
+    // of a bare template such a character is just a literal, like any
+    // other: emit it and resume scanning, instead of treating the whole
+    // rest of the template (interpolations and escapes included) as one
+    // literal.
+    if cs < hcltok_first_final && mode == scanTemplate && len(stack) == 0 && ts < len(data) && data[ts] == '\r' {
+        f.emitToken(TokenStringLit, ts, ts+1)
+        p = ts + 1
+        cs = hcltok_en_bareTemplate
+        goto rescan
+    }
 
     // If we fall out here without being in a final state then we've
     // encountered something that the scanner can't match, which we'll
